@@ -257,6 +257,7 @@ var observedCrash = map[string]struct{}{}
 func main() {
 	run = hx.Start("C18")
 	defer run.Finish()
+	defer closeEnv()
 	if run.Replay != "" {
 		for _, l := range hx.ReplayOps(run.Replay) {
 			do(l, true)
